@@ -1621,9 +1621,9 @@ fn allowed_memories(c: &Case, t: &Thread, sp: Option<u64>) -> Vec<Option<(u64, V
 
 /// the real `walk_stack` from the given context on the given memory (what the state's call stack
 /// must be, for one of the allowed memories)
-fn reference_walk(c: &Case, ctx: &MinidumpContext, mem: &Option<(u64, Vec<u8>)>, modules: &MinidumpModuleList, sysinfo: &minidump_unwind::SystemInfo) -> Vec<String> {
+fn reference_walk(c: &Case, ctx: &MinidumpContext, mem: &Option<(u64, Vec<u8>)>, modules: &MinidumpModuleList, sysinfo: &minidump_unwind::SystemInfo, with_symbols: bool) -> Vec<String> {
     let mods: Vec<(u64, u64, String)> = modules.iter().map(|m| (m.base_address(), m.size(), m.name.clone())).collect();
-    let symbolizer = minidump_unwind::Symbolizer::new(minidump_unwind::string_symbol_supplier(symbol_map(c)));
+    let symbolizer = minidump_unwind::Symbolizer::new(minidump_unwind::string_symbol_supplier(if with_symbols { symbol_map(c) } else { Default::default() }));
     let mut stack = minidump_unwind::CallStack::with_context(ctx.clone());
     let m = mem.as_ref().map(|(base, bytes)| MinidumpMemory {
         desc: Default::default(),
@@ -1762,14 +1762,22 @@ fn oracle(c: &Case, seen: &Seen) -> Vec<(String, String)> {
             let mut matched: Option<Option<(u64, Vec<u8>)>> = None;
             let mut refs = vec![];
             for m in &allowed {
-                let r = reference_walk(c, &f0.context, m, &st.modules, &sysinfo);
+                let r = reference_walk(c, &f0.context, m, &st.modules, &sysinfo, true);
                 if r == got {
                     matched = Some(m.clone());
                     break;
                 }
                 refs.push(r.join("^"));
             }
+            // the stack is the walk on an allowed memory as if the supplier had no symbol file at all
+            let unsymbolized = matched.is_none()
+                && !(c.sy.is_empty() && c.sw.is_empty())
+                && allowed.iter().any(|m| reference_walk(c, &f0.context, m, &st.modules, &sysinfo, false) == got);
             match matched {
+                None if unsymbolized => fail(
+                    "symbols-not-consulted",
+                    format!("stack {i}: frames {} are the walk WITHOUT the symbol files the supplier has (with them: {})", got.join("^"), refs.join(" || ")),
+                ),
                 None => fail(
                     "stack-memory-selection",
                     format!(
@@ -2016,6 +2024,49 @@ fn oracle(c: &Case, seen: &Seen) -> Vec<(String, String)> {
     }
     if !st.cert_info.is_empty() {
         fail("cert-info", format!("{:?} without an evil json file", st.cert_info));
+    }
+    // 9. the byte order of the dump is a matter of encoding: the same dump written little-endian is
+    //    indexed to the same state. Stated only where it is certain that the two walks read the same
+    //    words: no symbol records (their rules may address memory anywhere), every region based on a
+    //    pointer-size boundary, and every stack / frame pointer that any frame of either state holds
+    //    valid is a multiple of the pointer size — the frame-pointer and scan unwinders read at
+    //    those registers plus multiples of the pointer size only.
+    if let Some(arch) = walk_arch(c.cpu) {
+        let w = walk::ptr_of(arch);
+        if c.be && c.sy.is_empty() && c.sw.is_empty() && c.rg.iter().all(|r| r.base % w == 0) {
+            let mut twin = c.clone();
+            twin.be = false;
+            for r in twin.rg.iter_mut() {
+                let mut b = r.bytes();
+                for ch in b.chunks_mut(w as usize) {
+                    ch.reverse();
+                }
+                r.patches = vec![(0, b)];
+            }
+            let seen2 = run_impl(&twin);
+            if seen2.out != seen.out {
+                let aligned = |s: &minidump_processor::ProcessState| {
+                    s.threads.iter().all(|t| {
+                        t.frames.iter().all(|f| {
+                            ["esp", "ebp", "rsp", "rbp", "sp", "fp", "r11", "r13", "x29"].iter().all(|n| {
+                                let known = walk::registers(arch).contains(n) || walk::alias_names(arch).contains(n);
+                                let valid = match &f.context.valid {
+                                    MinidumpContextValidity::All => true,
+                                    MinidumpContextValidity::Some(set) => set.contains(n),
+                                };
+                                !known || !valid || f.context.get_register_always(n) % w == 0
+                            })
+                        })
+                    })
+                };
+                if seen2.state.as_ref().is_some_and(|s2| aligned(s2)) && aligned(st) {
+                    fail(
+                        "byte-order-dependent",
+                        format!("the big-endian dump is indexed to {} but the same dump written little-endian to {}", seen.out, seen2.out),
+                    );
+                }
+            }
+        }
     }
     bad
 }
